@@ -31,11 +31,27 @@ pub struct RObs {
     pub entries: Vec<EObs>,
 }
 
+/// caller pattern: one byte taken with read() into a vector, the rest appended to the same vector with read_to_end
+pub const P_PREFIX_THEN_READ_TO_END: usize = usize::MAX - 1;
+
 /// Caller-side reading pattern. bufsize 0 = read_to_end.
 fn read_entry<R: Read>(f: &mut R, bufsize: usize, zero: bool) -> (Result<Vec<u8>, String>, bool) {
     let mut out = vec![];
     let mut calls = 0u32;
-    let res = if bufsize == 0 {
+    let res = if bufsize == P_PREFIX_THEN_READ_TO_END {
+        out.push(0u8);
+        loop {
+            match f.read(&mut out[..1]) {
+                Ok(0) => {
+                    out.clear();
+                    break Ok(());
+                }
+                Ok(_) => break f.read_to_end(&mut out).map(|_| ()).map_err(|e| e.to_string()),
+                Err(e) if e.kind() == std::io::ErrorKind::Interrupted => continue,
+                Err(e) => break Err(e.to_string()),
+            }
+        }
+    } else if bufsize == 0 {
         if zero {
             loop {
                 match f.read(&mut []) {
@@ -63,7 +79,13 @@ fn read_entry<R: Read>(f: &mut R, bufsize: usize, zero: bool) -> (Result<Vec<u8>
                 Ok(n) => out.extend_from_slice(&buf[..n]),
                 // the retryable non-failure of the Read contract: retry, as std's read_to_end / read_exact do
                 Err(e) if e.kind() == std::io::ErrorKind::Interrupted => continue,
-                Err(e) => break Err(e.to_string()),
+                Err(e) => {
+                    // a caller may try again after an error: whatever those calls return, they must return
+                    for _ in 0..3 {
+                        let _ = f.read(&mut buf);
+                    }
+                    break Err(e.to_string());
+                }
             }
             if out.len() > 1 << 24 {
                 break Err("<runaway>".into());
@@ -263,7 +285,9 @@ pub fn scenarios(seed: u64, big: usize) -> Vec<Scn> {
 }
 
 fn bufname(b: usize) -> String {
-    if b == 0 {
+    if b == P_PREFIX_THEN_READ_TO_END {
+        "read(1) then read_to_end into the same vector".into()
+    } else if b == 0 {
         "read_to_end".into()
     } else {
         b.to_string()
@@ -538,15 +562,15 @@ pub fn run(args: &Args) -> i32 {
     BIG.store(big, std::sync::atomic::Ordering::Relaxed);
     let scns = scenarios(seed, big);
     let chunks: Vec<usize> = (1..=17).chain([4095, 4096, 4097]).collect();
-    let cbufs_all = [1usize, 2, 3, 7, 64, 4096, 0];
+    let cbufs_all = [1usize, 2, 3, 7, 64, 4096, 0, P_PREFIX_THEN_READ_TO_END];
     let cbufs_cut = [1usize, 7, 0];
     ctx.rule = format!(
         "E-DEV over fragmentation schedules, differential against the 0-deviation run (which is itself required to return the written content). Reader: 7 archives \
          (stored+deflated, bzip2+zstd, ZipCrypto x2, AE-1, AE-2, prefixed+ZIP64), entries of 40 and {big} bytes; seekable route for all, streaming route for the two plain ones; plus ~45 DAMAGED variants of them (one bit in an entry's data, recorded CRC or authentication code) whose reads must end in an error under every schedule, exactly as without fragmentation. \
-         Deviations: every uniform chunk limit in 1..=17 and {{4095,4096,4097}} and std BufReader capacities {{1,7,64}} x caller buffers {{1,2,3,7,64,4096,read_to_end}} x empty reads {{no,yes}}; \
+         Deviations: every uniform chunk limit in 1..=17 and {{4095,4096,4097}} and std BufReader capacities {{1,7,64}} x caller buffers {{1,2,3,7,64,4096,read_to_end, read(1)+read_to_end into one vector}} x empty reads {{no,yes}}; \
          a retryable ErrorKind::Interrupted at every read call (plain and with 5-byte underlying reads; callers retry as std does), and at every write call on the writer side; ONE cut at EVERY byte position of every archive x caller buffers {{1,7,read_to_end}}; all PAIRS of cut positions (bound 2) on a 40+60-byte archive. After EOF three more reads must return 0. Streaming route also with every entry released after 0/1/10/41 bytes (the reader skips the rest) under 9 chunk limits, 3 BufReader capacities and one cut at every (quick: every 5th) position. \
          Writer: 12 programs; sink accepting at most c bytes per write for the same c set; one short write at every write-call index with 1, n/2, n-1 bytes accepted: sink bytes must be identical; \
-         raw-copy sources delivering 1..17, 33, 100, 1000, 4095..4097, 65535, 65536 bytes per read: sink bytes identical; caller splitting a 700-byte content at every position and in uniform pieces 1..17: archive must decode to the same entries. distinct_nontrivial = distinct (scenario, route, schedule, caller pattern) tuples (counted; never repeated)."
+         zero-length reads on a handle before it is raw-copied change nothing; raw-copy sources delivering 1..17, 33, 100, 1000, 4095..4097, 65535, 65536 bytes per read: sink bytes identical; caller splitting a 700-byte content at every position and in uniform pieces 1..17: archive must decode to the same entries. distinct_nontrivial = distinct (scenario, route, schedule, caller pattern) tuples (counted; never repeated)."
     );
     ctx.assume("the 0-deviation execution is a valid baseline: it is checked against the known written content before use");
     ctx.uncovered("random schedules (sampling); more than 2 independent cuts; archives other than the listed scenarios");
@@ -890,6 +914,63 @@ pub fn run(args: &Args) -> i32 {
                 st.viol(format!("writer/source-short-reads-change-output/{label}"), format!("{label}: raw-copy sources delivering at most {c} bytes per read: {what}"), case, (4 << 50) + t);
             } else {
                 st.class("writer-same/chunked-raw-copy-source");
+            }
+        });
+        ctx.stats.merge(s);
+    }
+
+    // zero-length reads on an entry handle before the handle is raw-copied: they transfer nothing and must change nothing
+    {
+        let mut zitems: Vec<(usize, usize, usize, bool)> = vec![];
+        for (si, sb) in src.iter().enumerate() {
+            let n = zip::ZipArchive::new(std::io::Cursor::new(&sb[..])).map(|a| a.len()).unwrap_or(0);
+            for i in 0..n {
+                for k in [1usize, 3] {
+                    for raw_open in [false, true] {
+                        zitems.push((si, i, k, raw_open));
+                    }
+                }
+            }
+        }
+        counted += zitems.len() as u64;
+        let zr = &zitems;
+        let s = par_for(zitems.len() as u64, 4, |t, st| {
+            let (si, i, k, raw_open) = zr[t as usize];
+            st.evals += 1;
+            let run = |empty_reads: usize| -> Result<Vec<u8>, String> {
+                crate::util::guard(|| {
+                    let sink = SharedBuf::default();
+                    {
+                        let mut zw = zip::ZipWriter::new(sink.clone());
+                        let mut ar = zip::ZipArchive::new(std::io::Cursor::new(&src_ref[si][..])).map_err(|e| e.to_string())?;
+                        let mut f = if raw_open { ar.by_index_raw(i) } else { ar.by_index(i) }.map_err(|e| format!("open: {e}"))?;
+                        for _ in 0..empty_reads {
+                            let n = f.read(&mut []).map_err(|e| format!("empty read: {e}"))?;
+                            if n != 0 {
+                                return Err(format!("empty read returned {n}"));
+                            }
+                        }
+                        zw.raw_copy_file(f).map_err(|e| format!("raw_copy_file: {e}"))?;
+                        zw.finish().map_err(|e| format!("finish: {e}"))?;
+                    }
+                    Ok(sink.snapshot())
+                })
+                .unwrap_or_else(|p| Err(format!("PANIC {p}")))
+            };
+            let (base, got) = (run(0), run(k));
+            let case = json!({"rawcopy_after_empty_reads": {"source": si, "entry": i, "empty_reads": k, "raw_open": raw_open}});
+            match (base, got) {
+                (Ok(b), Ok(g)) if b == g => st.class("writer-same/raw-copy-after-empty-reads"),
+                (Err(b), Err(g)) if b == g => st.class("raw-copy-refused-either-way"),
+                (b, g) => {
+                    st.class("WRITER-OUTPUT-DIFFERS");
+                    st.viol(
+                        "writer/empty-reads-before-raw-copy-change-output",
+                        format!("source {si} entry {i} (opened {}): after {k} zero-length read(s) on the handle the raw copy gives {}, without them {}", if raw_open { "raw" } else { "decoding" }, g.map(|v| format!("{} bytes (fnv {:x})", v.len(), crate::util::fnv(&v))).unwrap_or_else(|e| e), b.map(|v| format!("{} bytes (fnv {:x})", v.len(), crate::util::fnv(&v))).unwrap_or_else(|e| e)),
+                        case,
+                        (5 << 50) + t,
+                    );
+                }
             }
         });
         ctx.stats.merge(s);
